@@ -52,18 +52,36 @@ int main(int argc, char** argv)
     vh::Rng g(E.seed * 179424673 + (c12 ? 12 : 13));
     int np = E.np, rank = E.rank;
     int ncases = seq ? (E.thorough ? 400 : 100) : (E.thorough ? (c12 ? 240 : 120) : (c12 ? 90 : 36));   // C12: interpolation x variables x truncation
-    for (int it = 0; it < ncases; it++)
+    // C13: after the random cases, directed strength graphs enumerated by their adjacency code (all digraphs on 3 vertices,
+    // the digraphs on 4 vertices in full in the thorough tier and one in seven otherwise), every weight order by rotation:
+    // non-symmetric dependencies, points nobody depends on, ranks without halo columns that others depend on
+    int stride4 = (E.thorough || (!seq && np == 2)) ? 1 : 7;     // two ranks: all of them (a rank without halo that others depend on)
+    int nenum = c12 ? 0 : (64 + (4096 + stride4 - 1) / stride4);
+    if (!seq && np > 4) nenum = 0;
+    for (int it = 0; it < ncases + nenum; it++)
     {
+        bool enumer = it >= ncases;
         int cap = 2 + std::min(28, it / 2);
-        int n = std::max(seq ? 1 : np, g.range(1, cap + (seq ? 0 : np)));
-        vh::Trip t = gen_mmatrix(g, n, g.coin(2, 3));
-        double thetas[] = { 0.0, 0.25, 0.5, 0.125 }; double theta = thetas[g.below(4)];
-        std::vector<double> w = gen_weights(g, n);
-        int split = g.below(5), interp = g.below(3);
+        int n = enumer ? 0 : std::max(seq ? 1 : np, g.range(1, cap + (seq ? 0 : np)));
+        vh::Trip t; double theta; std::vector<double> w; int split, interp;
+        if (!enumer) {
+            t = gen_mmatrix(g, n, g.coin(2, 3));
+            double thetas[] = { 0.0, 0.25, 0.5, 0.125 }; theta = thetas[g.below(4)];
+            w = gen_weights(g, n);
+            split = g.below(5); interp = g.below(3);
+        } else {
+            int k = it - ncases; long code; if (k < 64) { n = 3; code = k; } else { n = 4; code = (long)(k - 64) * stride4; }
+            if (!seq && n < np) continue;
+            t.n_rows = t.n_cols = n; int bit = 0;
+            for (int i = 0; i < n; i++) { t.r.push_back(i); t.c.push_back(i); t.v.push_back(10); }
+            for (int i = 0; i < n; i++) for (int j = 0; j < n; j++) if (i != j) { if ((code >> bit) & 1) { t.r.push_back(i); t.c.push_back(j); t.v.push_back(-1); } bit++; }
+            theta = 0.25; double base[] = { 0.125, 0.375, 0.625, 0.875 }; w.resize(n); for (int i = 0; i < n; i++) w[i] = base[(i + code) % n];
+            int kinds_seq[] = { 0, 1, 3 }, kinds_par[] = { 1, 3, 1, 3, 0 }; split = seq ? kinds_seq[code % 3] : kinds_par[code % 5]; interp = 0;
+        }
         bool random_states = c12 && g.coin(1, 3);
         // systems of several interleaved unknowns per node, and truncation of small weights (distributed extended interpolation)
         int nv = (c12 && g.coin(1, 3)) ? g.range(2, 3) : 1;
-        double thr = (c12 && !seq && interp == 2 && g.coin(1, 4)) ? 0.3 : 0.0;
+        double thr = (c12 && !seq && interp == 2 && g.coin(1, 3)) ? (g.coin() ? 0.3 : 0.6) : 0.0;
         std::vector<int> vars(n); for (int i = 0; i < n; i++) vars[i] = i % nv;
         char ctx[128]; snprintf(ctx, 128, "%s/%s/%s/%s/n%d", prop, seq ? "seq" : "par", SPLIT[split], c12 ? INTERP[interp] : "-", n); E.about(ctx);
         if (seq) {
@@ -84,6 +102,7 @@ int main(int argc, char** argv)
         } else {
             int style = g.coin() ? 1 : 2 + g.below(2);
             std::vector<int> R = vh::compose(g, n, np, style);
+            if (enumer && np == 2) { int cut = 1 + (int)((it / 5) % (n - 1)); R = { cut, n - cut }; }      // every cut position in turn
             vh::Layout L; L.kind = 1; L.rows = R; L.cols = R; L.first_row.assign(np, 0); for (int p = 1; p < np; p++) L.first_row[p] = L.first_row[p - 1] + R[p - 1]; L.first_col = L.first_row;
             int tap = (np > 1 && g.coin(1, 3)) ? 1 : 0;
             ParCOOMatrix* Ac = vh::assemble_coo(t, L, rank); ParCSRMatrix* A = Ac->to_ParCSR();
@@ -112,13 +131,17 @@ int main(int argc, char** argv)
                 ParCSRMatrix* P = interp == 0 ? direct_interpolation(A, S, states, off_states, tap) : interp == 1 ? mod_classical_interpolation(A, S, states, off_states, tap, nv, nv > 1 ? lvars.data() : NULL)
                                   : extended_interpolation(A, S, states, off_states, thr, tap, nv, nv > 1 ? lvars.data() : NULL);
                 auto pents = flat(G(vh::local_entries(P, false)));
+                // truncated operator: also the untruncated one, so that the driver can apply the definition of the truncation itself
+                std::vector<long long> pents0;
+                if (thr != 0.0) { ParCSRMatrix* P0 = extended_interpolation(A, S, states, off_states, 0.0, tap, nv, nv > 1 ? lvars.data() : NULL);
+                    pents0 = flat(G(vh::local_entries(P0, false))); delete P0; }
                 std::vector<long long> st2(states.begin(), states.end()); auto allst2 = flat(G(st2));
                 auto pdims = G({ (long long)P->global_num_rows, (long long)P->global_num_cols, (long long)P->local_num_rows, (long long)P->on_proc_num_cols });
                 bool want = E.want();
                 if (rank == 0 && want) {
                     vh::Case c("C12", "par"); c.i(interp).i(n).i(np).i(tap).d(theta).i(nv).d(thr);
                     CSRMatrix* Ag = vh::make_csr(t); Ag->sort(); Ag->move_diag(); for (auto q : csr_ll(Ag)) c.i(q);
-                    c.vec(sents).vec(allst2).vec(pents); for (auto& d : pdims) for (auto q : d) c.i(q);
+                    c.vec(sents).vec(allst2).vec(pents).vec(pents0); for (auto& d : pdims) for (auto q : d) c.i(q);
                     // the sequential routine on the assembled matrix, same strength pattern and splitting
                     CSRMatrix* Sg = Ag->strength(Classical, theta, nv, nv > 1 ? vars.data() : NULL); std::vector<int> sg(allst2.begin(), allst2.end());
                     CSRMatrix* Ps = interp == 0 ? direct_interpolation(Ag, Sg, sg) : interp == 1 ? mod_classical_interpolation(Ag, Sg, sg, nv, nv > 1 ? vars.data() : NULL) : extended_interpolation(Ag, Sg, sg, nv, nv > 1 ? vars.data() : NULL);
